@@ -32,7 +32,7 @@ LEVEL_NOTE = ('Exhaustive over relative placements on the small lattice only; la
 RULE = ("lattice: cases = (filter node subset, storage order), executions = response assignments x SED grids; irregular/object/package: one case per configuration; "
         "non-trivial = distinct (filter, SED grid) pairs whose overlap is non-empty and whose filter has a non-zero response")
 ASSUMPTIONS = ["non-negative responses, strictly positive distinct frequencies", "lattice exhaustive; beyond it a finite seed-derived family"]
-REQUIRED_CLASSES = ['package-of-100-models-and-100-wavelengths', 'integer-response', 'filter-file-overwritten-and-read-again', 'bin-edge-on-filter-end', 'several-nodes-in-one-bin', 'filter-decreasing-nu', 'sed-decreasing-nu', 'partial-overlap-low', 'partial-overlap-high',
+REQUIRED_CLASSES = ['rebinned-before-normalising', 'package-of-100-models-and-100-wavelengths', 'integer-response', 'filter-file-overwritten-and-read-again', 'bin-edge-on-filter-end', 'several-nodes-in-one-bin', 'filter-decreasing-nu', 'sed-decreasing-nu', 'partial-overlap-low', 'partial-overlap-high',
                     'filter-outside-sed', 'empty-bin', 'normalized-flat', 'linearity', 'file-filter', 'pkg-v1', 'pkg-v2', 'pkg-errors', 'irregular', 'seds-with-different-grids', 'filter-nu-in-other-unit', 'two-filters-one-response-array']
 TIMEOUT = {'quick': 600, 'thorough': 3000}
 
@@ -294,6 +294,13 @@ def _object(ctx, case, rec, d):
     if not np.allclose(nu_file, pkgwriter.C_M_S / (wav * 1e-6), rtol=1e-12) or not np.array_equal(np.asarray(f.response), resp):
         rec.violation('filter-read|columns', sub, {'nu': nu_file[:4], 'wav': wav[:4]})
         return
+    # the filter is used once BEFORE it is normalised (any order of the two operations is legal): what it gives afterwards must
+    # be that of the normalised curve
+    try:
+        f.rebin(np.sort(np.r_[min(nu_file) * 0.7, nu_file, max(nu_file) * 1.2]) * u.Hz)
+        rec.cls('rebinned-before-normalising')
+    except Exception as e:
+        rec.violation('rebin|exception|%s' % type(e).__name__, sub, {'msg': str(e)[:200], 'from': 'rebin before normalize'})
     f.normalize()
     fx = [Fr(float(x)) for x in nu_file]
     fy = [Fr(float(y)) for y in np.asarray(f.response)]
